@@ -7,6 +7,7 @@
 
 include!(concat!(env!("OUT_DIR"), "/dw_mods.rs"));
 
+mod logcap;
 mod sched;
 mod world;
 
@@ -40,6 +41,7 @@ fn main() {
     }
     let (Some(inp), Some(out), Some(dir)) = (inp, out, dir) else { usage() };
     std::env::set_var("WALRUS_QUIET", "1");
+    logcap::install();
     let f = std::fs::File::open(&inp).expect("open --in");
     let jobs: Vec<Value> = std::io::BufReader::new(f)
         .lines()
